@@ -110,7 +110,8 @@ SysP(s)   == <<"sys", s>>
 
 Stale(w) == want[w].st # "waiting"
 \* a waiter record is garbage once its owner is done with it, it is not queued and no dialer serves it
-GC(wt, q, d) == [w \in W |-> IF wt[w].st \in {"taken", "cancelled"} /\ w \notin Range(q) /\ d[w].at = "none"
+GC(wt, q, d) == LET rq == Range(q) IN
+                [w \in W |-> IF wt[w].st \in {"taken", "cancelled"} /\ w \notin rq /\ d[w].at = "none"
                               THEN NoWant ELSE wt[w]]
 FreeConns == {c \in C : conn[c].st = "free"}
 FreeWaiters == {w \in W : want[w].st = "none" /\ w \notin Range(waitq) /\ dl[w].at = "none"}
@@ -512,20 +513,22 @@ TypeOK == /\ connsCount \in 0 .. NC + Cardinality(Callers) + NW + 2
           /\ \A w \in W : want[w].st \in {"none", "waiting", "delivered", "failed", "taken", "cancelled"}
           /\ \A c \in C : conn[c].st \in {"free", "open"}
 
-Holders(c) == {Caller(g) : g \in {h \in Callers : pc[h].c = c}}
-              \cup {Dialer(w) : w \in {v \in W : dl[v].c = c}}
-              \cup {SysP(s) : s \in {t \in Sys : c \in Range(sys[t].todo)}}
-              \cup {<<"want", w>> : w \in {v \in W : want[v].st = "delivered" /\ want[v].conn = c}}
+\* who holds which connection: callers, background dialers, closers, waiters with a delivered connection
+HolderPairs == {<<Caller(g), pc[g].c>> : g \in {h \in Callers : pc[h].c # 0}}
+               \cup {<<Dialer(w), dl[w].c>> : w \in {v \in W : dl[v].c # 0}}
+               \cup {<<<<"want", w>>, want[w].conn>> : w \in {v \in W : want[v].st = "delivered"}}
+               \cup UNION {{<<SysP(s), sys[s].todo[i]>> : i \in DOMAIN sys[s].todo} : s \in Sys}
 
-\* a connection carries at most one request at a time: one holder at most, idle connections have none
-Exclusive == \A c \in C :
-    /\ Cardinality(Holders(c)) <= 1
-    /\ conn[c].st = "open" =>
-         /\ (conn[c].user = None <=> Holders(c) = {})
-         /\ (conn[c].user # None => Holders(c) = {conn[c].user})
-         /\ (conn[c].user = None <=> c \in Range(idle))
-    /\ conn[c].st = "free" => (Holders(c) = {} /\ c \notin Range(idle))
-    /\ Cardinality({i \in DOMAIN idle : idle[i] = c}) <= 1
+\* a connection carries at most one request at a time: every holder is THE user of its connection (so no
+\* connection has two holders), every used connection has its holder, idle connections have none
+Exclusive ==
+    LET hp == HolderPairs
+        ri == Range(idle) IN
+    /\ \A pr \in hp : pr[2] \in C /\ conn[pr[2]].st = "open" /\ conn[pr[2]].user = pr[1]
+    /\ Cardinality({c \in C : conn[c].st = "open" /\ conn[c].user # None}) = Cardinality(hp)
+    /\ \A c \in C : IF conn[c].st = "open" THEN (conn[c].user = None <=> c \in ri)
+                                          ELSE (conn[c].user = None /\ c \notin ri)
+    /\ Cardinality(ri) = Len(idle)
 
 Bounded == connsCount <= cf.max
 
